@@ -467,6 +467,16 @@ class World:
             cap0 = self.cap
             r = self.call(lambda: setattr(parent.el, attr, new.el))
             self.cap = (cap0[0] + self.cap[0], cap0[1] + self.cap[1])
+            if r[0] == 'ok' and new.name != cname:
+                # an element of another class was offered to the shortcut and not refused: adopt what the library
+                # actually did (conservation is judged by C06, acceptance by C01/C07/C19)
+                try:
+                    present = any(k is new.el for k in parent.el.get_children(ordered=False))
+                except Exception:
+                    present = False
+                self.count('dot_set.foreign_element_not_refused')
+                if not present:
+                    return ('ok', 'foreign-element-not-attached')
             if r[0] == 'ok':
                 if existing:
                     old = existing[0]
